@@ -30,7 +30,9 @@ def quiescent_layer(ctx: Ctx):
     bi = 0
     cs = dc.consts(MaxId=5, MaxOps=1, Prios=[5, 10], RelDelays=[0, 1, 2], AbsTimes=[], BadKinds=["hstart", "hrun", "hstep", "reinit"], HStopOps=True, Cmds=ALL, Bounds=[0, 1, 2, 3, 4],
                    MaxCmds=10, MaxInits=3, EndT=3, WarmT=1)
-    for beh in dc.simulate(ctx, "DEVS lifecycle", cs, num=ctx.pick(300, 3000), depth=60, seed=ctx.seed + 40):
+    behs = dc.simulate(ctx, "DEVS lifecycle (any first command)", cs, num=ctx.pick(100, 1000), depth=60, seed=ctx.seed + 40, init_first=False) + \
+        dc.simulate(ctx, "DEVS lifecycle (initialize first)", cs, num=ctx.pick(200, 2000), depth=60, seed=ctx.seed + 41)
+    for beh in behs:
         conc = dd.CONCS_OFF[bi % len(dd.CONCS_OFF)]
         tr = dc.replay(ctx, beh, conc, cs, f"behaviour {bi}")
         ctx.evaluations += 1
